@@ -426,7 +426,10 @@ func main() {
 	commonF := parseFile(filepath.Join(repo, "valid/common.go"))
 	fnF := parseFile(filepath.Join(repo, "valid/validfn.go"))
 	ruleF := parseFile(filepath.Join(repo, "valid/rule.go"))
-	fnFiles := map[string]*ast.File{"valid/common.go": commonF, "valid/cache.go": cacheF, "valid/validfn.go": fnF, "valid/rule.go": ruleF, "valid/init.go": initF}
+	mapF := parseFile(filepath.Join(repo, "valid/validmap.go"))
+	urlF := parseFile(filepath.Join(repo, "valid/validurl.go"))
+	absF := parseFile(filepath.Join(repo, "valid/abstract.go"))
+	fnFiles := map[string]*ast.File{"valid/validvar.go": varF, "valid/validmap.go": mapF, "valid/validurl.go": urlF, "valid/abstract.go": absF, "valid/common.go": commonF, "valid/cache.go": cacheF, "valid/validfn.go": fnF, "valid/rule.go": ruleF, "valid/init.go": initF}
 	writeIfChanged(filepath.Join(outDir, "SourceFnsSize.v"), miniGo(fnFiles, [][2]string{{"valid/common.go", "validInputSize"}, {"valid/validfn.go", "eq"}}))
 	writeIfChanged(filepath.Join(outDir, "SourceFnsParse.v"), miniGo(fnFiles, [][2]string{{"valid/common.go", "ParseValidNameKV"}, {"valid/common.go", "IsExported"}}))
 	writeIfChanged(filepath.Join(outDir, "SourceFnsGen.v"), miniGo(fnFiles, [][2]string{{"valid/rule.go", "GenValidKV"}, {"valid/rule.go", "RM_Set"}, {"valid/rule.go", "RM_Get"}}))
@@ -452,5 +455,9 @@ func main() {
 	writeIfChanged(filepath.Join(outDir, "SourceFnsSplit.v"), miniGo(fnFiles, [][2]string{{"valid/common.go", "ValidNamesSplit"}}))
 	writeIfChanged(filepath.Join(outDir, "SourceFnsLRU.v"), miniGo(fnFiles, [][2]string{{"valid/cache.go", "LRUCache_Store"}, {"valid/cache.go", "LRUCache_Load"},
 		{"valid/cache.go", "LRUCache_Delete"}, {"valid/cache.go", "LRUCache_delete"}, {"valid/cache.go", "LRUCache_Len"}}))
+	writeIfChanged(filepath.Join(outDir, "SourceFnsWalk.v"), miniGo(fnFiles, [][2]string{{"valid/abstract.go", "validCommon_getValidFn"},
+		{"valid/validvar.go", "VVar_getValidFn"}, {"valid/validmap.go", "VMap_getValidFn"}, {"valid/validurl.go", "VUrl_getValidFn"},
+		{"valid/validvar.go", "VVar_validate"}, {"valid/validmap.go", "VMap_validate"}, {"valid/validmap.go", "VMap_getKey"},
+		{"valid/validurl.go", "VUrl_validate"}}))
 	_ = os.Remove(filepath.Join(outDir, "SourceFns.v"))
 }
